@@ -703,8 +703,82 @@ class Model:
                 'unresolved_repo_calls': len(self._unresolved)}
 
 
+def _baseline():
+    p = os.path.join(os.path.dirname(os.path.abspath(__file__)), 'baseline_names.json')
+    try:
+        import json
+        with open(p) as fh:
+            return json.load(fh)
+    except Exception:
+        return {'classes': {}, 'modfuncs': {}}
+
+
+def rename_normalise(sources):
+    """Undo pure renames of methods against the symbol table of the pinned tree (baseline_names.json): when a class lost exactly the
+    method `old` and gained exactly one method `new` with the same parameter list (or the pairing by parameter lists is unique), `new` is
+    renamed back to `old` everywhere in the package before the model is built.  The table is used for nothing else; a name that is not a
+    unique pure rename is left alone (and the rule anchored on the old name becomes UNDECIDED).  -> (sources, {new: old})"""
+    base = _baseline()
+    trees = {}
+    cur = {}
+    for rel, src in sources.items():
+        try:
+            t = ast.parse(src, filename=rel)
+        except SyntaxError:
+            return sources, {}
+        trees[rel] = t
+        mod = rel[:-3].replace('/', '.')
+        for st in t.body:
+            if isinstance(st, ast.ClassDef):
+                cur['%s.%s' % (mod, st.name)] = {m.name: [a.arg for a in m.args.posonlyargs + m.args.args + m.args.kwonlyargs] for m in st.body if isinstance(m, ast.FunctionDef)}
+    all_names = set()
+    for t in trees.values():
+        for n in ast.walk(t):
+            if isinstance(n, ast.FunctionDef):
+                all_names.add(n.name)
+    ren = {}
+    for cq, meths in base.get('classes', {}).items():
+        if cq not in cur:
+            continue
+        missing = [m for m in meths if m not in cur[cq]]
+        extra = [m for m in cur[cq] if m not in meths]
+        if not missing or not extra:
+            continue
+        for old in missing:
+            cands = [e for e in extra if cur[cq][e] == meths[old] and e not in ren]
+            if len(missing) == 1 and len(extra) == 1:
+                cands = [e for e in extra if len(cur[cq][e]) == len(meths[old])]
+            if len(cands) > 1:
+                # several renamed siblings with one signature (e.g. the buy/sell twins): pair by name similarity when it is decisive
+                import difflib
+                scored = sorted(((difflib.SequenceMatcher(None, old, e).ratio(), e) for e in cands), reverse=True)
+                others = [difflib.SequenceMatcher(None, o2, scored[0][1]).ratio() for o2 in missing if o2 != old]
+                if scored[0][0] > scored[1][0] + 0.1 and all(scored[0][0] > x + 0.1 for x in others):
+                    cands = [scored[0][1]]
+            # the old name must not be in use elsewhere for something else, the new name must be unique in the package
+            if len(cands) == 1 and sum(1 for c2 in cur.values() if cands[0] in c2) == 1:
+                ren[cands[0]] = old
+    if not ren:
+        return sources, {}
+    out = {}
+    for rel, t in trees.items():
+        changed = False
+        for n in ast.walk(t):
+            if isinstance(n, ast.FunctionDef) and n.name in ren:
+                n.name = ren[n.name]
+                changed = True
+            elif isinstance(n, ast.Attribute) and n.attr in ren:
+                n.attr = ren[n.attr]
+                changed = True
+        out[rel] = ast.unparse(t) if changed else sources[rel]
+    return out, ren
+
+
 def build(root='/repo'):
-    return Model(load_sources(root))
+    src, ren = rename_normalise(load_sources(root))
+    m = Model(src)
+    m.renamed = ren
+    return m
 
 
 if __name__ == '__main__':
